@@ -20,31 +20,28 @@ Lemma prim_size_sk : forall p, prim_size p = sk_size (prim_sk p).
 Proof. destruct p; reflexivity. Qed.
 
 Lemma prim_eq : forall V E p z o,
-  in_range (prim_sk p) z = true -> (p = PChar8 -> z < 128) ->
+  in_range (prim_sk p) z = true ->
   PRIM V E p z o = enc_align V (sk_size (prim_sk p)) o ++ prim_bytes E (prim_sk p) z.
 Proof.
-  intros V E p z o Hr Hc. unfold PRIM. rewrite align_eq by (destruct p; cbn; tauto).
+  intros V E p z o Hr. unfold PRIM. rewrite align_eq by (destruct p; cbn; tauto).
   rewrite prim_size_sk. f_equal.
   destruct p; try reflexivity; unfold in_range in Hr; cbn [prim_sk] in *.
   - (* bool *)
     apply orb_prop in Hr. destruct Hr as [Hr|Hr]; apply Z.eqb_eq in Hr; subst z; destruct E; reflexivity.
-  - (* char8 *)
-    specialize (Hc eq_refl). apply is_scalar_range in Hr.
-    unfold prim_bytes, utf8_char. replace (z <? 128) with true by (symmetry; apply Z.ltb_lt; lia).
-    assert (z mod 256 = z) by (apply Z.mod_small; lia).
-    change (Z.to_nat (sk_size KChar8)) with 1%nat.
-    destruct E; cbn [int_enc le_enc rev app]; rewrite H; reflexivity.
+  - (* char8: one octet on both sides *)
+    unfold prim_bytes. change (Z.to_nat (sk_size KChar8)) with 1%nat.
+    destruct E; reflexivity.
 Qed.
 
 Lemma ser_prim_spec : forall V E p z pos,
-  in_range (prim_sk p) z = true -> (p = PChar8 -> z < 128) ->
+  in_range (prim_sk p) z = true ->
   ser_prim V E (prim_sk p) z pos = Ok (PRIM V E p z pos, pos + blen (PRIM V E p z pos)).
 Proof. intros. unfold ser_prim, ret. now rewrite prim_eq. Qed.
 
 Lemma u32_spec : forall V E z pos, 0 <= z <= u32_max ->
   ser_prim V E KU32 z pos = Ok (PRIM V E PU32 z pos, pos + blen (PRIM V E PU32 z pos)).
 Proof.
-  intros. apply (ser_prim_spec V E PU32); [|discriminate].
+  intros. apply (ser_prim_spec V E PU32).
   unfold in_range, u32_max in *. cbn [prim_sk]. apply andb_true_intro. split; [apply Z.leb_le|apply Z.ltb_lt]; lia.
 Qed.
 
@@ -102,16 +99,11 @@ Qed.
 
 (* ---------------------------------------------------------------- collections *)
 Lemma prim_elems_spec : forall V E p l,
-  forallb (in_range (prim_sk p)) l = true -> val_nonascii_char (VSeqP (prim_sk p) l) = false ->
+  forallb (in_range (prim_sk p)) l = true ->
   agrees (ser_list (ser_prim V E (prim_sk p)) l) (cat (PRIM V E p) l).
 Proof.
-  intros V E p l Hr Hn. apply cat_spec. intros z Hz pos.
-  rewrite forallb_forall in Hr. apply ser_prim_spec; [now apply Hr|].
-  intros ->. cbn [prim_sk val_nonascii_char] in Hn.
-  destruct (Z.leb_spec 128 z) as [Hge|]; [|lia].
-  exfalso. assert (existsb (fun z => 128 <=? z) l = true).
-  { apply existsb_exists. exists z. split; [assumption|now apply Z.leb_le]. }
-  congruence.
+  intros V E p l Hr. apply cat_spec. intros z Hz pos.
+  rewrite forallb_forall in Hr. apply ser_prim_spec. now apply Hr.
 Qed.
 
 Lemma raw_u8_cat : forall V E p l, p = PByte \/ p = PU8 ->
@@ -137,12 +129,11 @@ Definition no_wstr_bad (V : ver) (e : ty) : Prop := cbad V e = false.
 
 Lemma elements_spec : forall V E e (w : val -> bool) fe fu (g : val -> Z -> list Z) v,
   elem_ok e = true -> cbad V e = false ->
-  elems_wt e w v = true -> val_nonascii_char v = false ->
-  (forall d, w (VData d) = true -> val_nonascii_char (VData d) = false ->
-             agrees (fe (VData d)) (g (VData d))) ->
+  elems_wt e w v = true ->
+  (forall d, w (VData d) = true -> agrees (fe (VData d)) (g (VData d))) ->
   agrees (ser_elements V E e fe fu v) (ELEMS V E e g v).
 Proof.
-  intros V E e w fe fu g v Hok Hb Hw Hn Hfe.
+  intros V E e w fe fu g v Hok Hb Hw Hfe.
   destruct e as [p| | |h ls|e'|n e'|x ms|x dd cs]; try discriminate; cbn [elems_wt] in Hw.
   - destruct v as [| | |k l| |]; try discriminate.
     apply andb_prop in Hw as [Hk Hr]. apply sk_eqb_eq in Hk. subst k.
@@ -153,10 +144,10 @@ Proof.
     apply cat_spec. intros s Hs. rewrite forallb_forall in Hw. apply string_spec. now apply Hw.
   - destruct v as [| | | | |l]; try discriminate. intros pos. cbn [ser_elements ELEMS]. revert pos.
     apply cat_spec. intros d Hd. rewrite forallb_forall in Hw.
-    apply Hfe; [now apply Hw|]. exact (nonascii_seqdata l Hn d Hd).
+    apply Hfe. now apply Hw.
   - destruct v as [| | | | |l]; try discriminate. intros pos. cbn [ser_elements ELEMS]. revert pos.
     apply cat_spec. intros d Hd. rewrite forallb_forall in Hw.
-    apply Hfe; [now apply Hw|]. exact (nonascii_seqdata l Hn d Hd).
+    apply Hfe. now apply Hw.
 Qed.
 
 Lemma sequence_spec : forall V E e fe fu g v,
@@ -238,11 +229,11 @@ Proof.
     { pose proof (Hopt1 eq_refl) as Ho. rewrite Forall_forall in Ho. specialize (Ho mt Hin). congruence. }
     unfold ser_opt_fmember.
     destruct (lookup (m_id (fst mt)) d) as [v|] eqn:Hv.
-    + pose proof (ser_prim_spec V2 E PBool 1 pos eq_refl ltac:(discriminate)) as Hb.
+    + pose proof (ser_prim_spec V2 E PBool 1 pos eq_refl) as Hb.
       cbn [prim_sk] in Hb. unfold seq2. rewrite Hb. cbn [bind].
       unfold ser_value. rewrite find_cvS by assumption. unfold get. rewrite Hv. cbn [bind].
       rewrite Hmem. cbn [bind]. rewrite blen_app. f_equal. f_equal. lia.
-    + pose proof (ser_prim_spec V2 E PBool 0 pos eq_refl ltac:(discriminate)) as Hb.
+    + pose proof (ser_prim_spec V2 E PBool 0 pos eq_refl) as Hb.
       cbn [prim_sk] in Hb. exact Hb.
   - destruct (lookup (m_id (fst mt)) d) as [v|] eqn:Hv; [|congruence].
     unfold ser_value. rewrite find_cvS by assumption. unfold get. rewrite Hv. cbn [bind]. apply Hmem.
@@ -298,15 +289,14 @@ Proof.
 Qed.
 
 Theorem eq_ty : forall V E t, common V t = true ->
-  forall v, wt t v = true -> val_nonascii_char v = false ->
+  forall v, wt t v = true ->
   agrees (ser_ty V E t v) (spec_ty V E t v).
 Proof.
-  intros V E t. induction t using ty_ind'; intros Hg v Hw Hn.
+  intros V E t. induction t using ty_ind'; intros Hg v Hw.
   - cbn [wt] in Hw. destruct v as [k z| | | | |]; try discriminate.
     apply andb_prop in Hw as [Hk Hr]. pose proof (sk_eqb_eq _ _ Hk) as ->.
     intros pos. cbn [ser_ty spec_ty zval]. rewrite sk_eqb_refl.
-    apply ser_prim_spec; [exact Hr|].
-    intros ->. cbn [prim_sk val_nonascii_char] in Hn. apply Z.leb_gt in Hn. lia.
+    now apply ser_prim_spec.
   - cbn [wt] in Hw. destruct v as [|s| | | |]; try discriminate.
     intros pos. cbn [ser_ty spec_ty sval]. now apply string_spec.
   - exfalso. unfold common in Hg. apply andb_prop in Hg as [_ Hg]. apply negb_true_iff in Hg.
@@ -321,7 +311,7 @@ Proof.
     apply andb_prop in Hw as [Hw Hl]. apply andb_prop in Hw as [Hk Hr].
     apply sk_eqb_eq in Hk. subst k.
     intros pos. cbn [ser_ty on_data spec_ty dval zval].
-    pose proof (ser_prim_spec V E h z pos Hr ltac:(destruct h; discriminate)) as Hp.
+    pose proof (ser_prim_spec V E h z pos Hr) as Hp.
     destruct h; try discriminate; cbn [ser_enum get_k lookup Z.eqb sk_eqb bind prim_sk] in *; exact Hp.
   - (* sequence *)
     unfold common in Hg. apply andb_prop in Hg as [Hwf Ha]. apply negb_true_iff in Ha.
@@ -333,7 +323,7 @@ Proof.
     apply sequence_spec; [exact Hlen|].
     apply (elements_spec V E t (wt t)); try assumption.
     + now apply ty_any_self.
-    + intros d Hwd Hnd. now apply IHt.
+    + intros d Hwd. now apply IHt.
   - (* array *)
     unfold common in Hg. apply andb_prop in Hg as [Hwf Ha]. apply negb_true_iff in Ha.
     cbn [wf_ty] in Hwf. apply andb_prop in Hwf as [Hwf _]. apply andb_prop in Hwf as [Hwf _].
@@ -345,7 +335,7 @@ Proof.
     apply array_spec.
     apply (elements_spec V E t (wt t)); try assumption.
     + now apply ty_any_self.
-    + intros d Hwd Hnd. now apply IHt.
+    + intros d Hwd. now apply IHt.
   - (* structure *)
     destruct (common_struct V x ms Hg) as [Hnd [Hb Hgm]].
     destruct v as [| |d| | |]; try (cbn [wt] in Hw; discriminate).
@@ -365,7 +355,7 @@ Proof.
       - rewrite Forall_forall in *. intros mt Hin.
         specialize (H mt Hin). specialize (Hgm mt Hin). specialize (Hgo mt Hin).
         destruct (lookup (m_id (fst mt)) d) as [v'|] eqn:Hl; [|exact Hgo].
-        apply H; [exact Hgm|exact Hgo|]. exact (nonascii_data d Hn _ _ Hl). }
+        apply H; [exact Hgm|exact Hgo]. }
     rewrite ser_ty_struct. cbn [on_data]. now apply struct_spec.
   - exfalso. unfold common in Hg. apply andb_prop in Hg as [_ Hg]. apply negb_true_iff in Hg.
     apply ty_any_self in Hg. discriminate.
@@ -376,11 +366,11 @@ Lemma enc_id_eq : forall V E x, repr_id V E x = ENC_ID V E x.
 Proof. destruct V, E, x; reflexivity. Qed.
 
 Theorem code_eq_spec : forall V E t v,
-  is_aggr t = true -> common V t = true -> wt t v = true -> val_nonascii_char v = false ->
+  is_aggr t = true -> common V t = true -> wt t v = true ->
   encode V E t v = Ok (spec_encode V E t v).
 Proof.
-  intros V E t v Ha Hc Hw Hn. unfold encode, spec_encode. rewrite Ha.
-  rewrite (eq_ty V E t Hc v Hw Hn 0). cbn [bind]. cbv zeta.
+  intros V E t v Ha Hc Hw. unfold encode, spec_encode. rewrite Ha.
+  rewrite (eq_ty V E t Hc v Hw 0). cbn [bind]. cbv zeta.
   set (body := spec_ty V E t v 0).
   assert (Hb : blen ([0; repr_id V E (ty_ext t); 0; 0] ++ body) = 4 + blen body)
     by (rewrite blen_app; reflexivity).
@@ -389,26 +379,23 @@ Proof.
   rewrite Hp, enc_id_eq. reflexivity.
 Qed.
 
-Lemma common_tgood : forall V t, common V t = true -> (V = V1 -> ty_any is_f128 t = false) ->
-  tgood V t = true.
+Lemma common_tgood : forall V t, common V t = true -> tgood V t = true.
 Proof.
-  intros V t Hc Hf. unfold common in Hc. apply andb_prop in Hc as [Hwf Ha]. apply negb_true_iff in Ha.
+  intros V t Hc. unfold common in Hc. apply andb_prop in Hc as [Hwf Ha]. apply negb_true_iff in Ha.
   unfold tgood. rewrite Hwf. cbn [andb]. apply negb_true_iff.
-  apply (ty_any_mono (fun t0 => cbad V t0 || (match V with V1 => is_f128 t0 | V2 => false end)) (tbad V)).
-  - intros t0 Hq. unfold tbad, cbad in *. destruct V, (is_union t0), (is_mutable t0), (is_wstr t0),
-      (is_f128 t0), (has_opt_member t0); cbn in *; congruence.
-  - rewrite ty_any_or, Ha. cbn [orb]. destruct V; [now apply Hf|apply ty_any_false].
+  apply (ty_any_mono (cbad V) (tbad V)); [|exact Ha].
+  intros t0 Hq. unfold tbad, cbad in *. destruct V, (is_union t0), (is_mutable t0), (is_wstr t0),
+    (has_opt_member t0); cbn in *; congruence.
 Qed.
 
 (* the deserializer accepts what the specification encoder produces *)
 Theorem spec_decodable : forall V E t v,
-  is_aggr t = true -> common V t = true -> (V = V1 -> ty_any is_f128 t = false) ->
-  wt t v = true -> val_nonascii_char v = false ->
+  is_aggr t = true -> common V t = true -> wt t v = true ->
   decode t (spec_encode V E t v) = Ok v.
 Proof.
-  intros V E t v Ha Hc Hf Hw Hn.
-  destruct (roundtrip_tgood V E t v Ha (common_tgood V t Hc Hf) Hw Hn) as [bs [He Hd]].
-  rewrite (code_eq_spec V E t v Ha Hc Hw Hn) in He. inversion He. now subst.
+  intros V E t v Ha Hc Hw.
+  destruct (roundtrip_tgood V E t v Ha (common_tgood V t Hc) Hw) as [bs [He Hd]].
+  rewrite (code_eq_spec V E t v Ha Hc Hw) in He. inversion He. now subst.
 Qed.
 
 (* ---------------------------------------------------------------- differences (our reading) *)
@@ -422,9 +409,6 @@ Ltac dif :=
 (* wide string "a": implementation 02 00 00 00 'a' 00 NUL NUL; rule (4) as read: 02 00 00 00 'a' 00 *)
 Lemma diff_wstring : differs V2 LE (TStruct Final [(mk 0, TWStr)]) (VData [(0, VStr [97])]).
 Proof. dif. Qed.
-(* char8 0xE9: implementation writes the two UTF-8 octets c3 a9 *)
-Lemma diff_char8 : differs V2 LE (TStruct Final [(mk 0, TPrim PChar8)]) (VData [(0, VP KChar8 233)]).
-Proof. dif. Qed.
 (* XCDR1 {@optional octet 1; uint64 2}: after the parameter the implementation keeps aligning from the
    member's origin (7 padding octets), the rule pops the origin (3 padding octets) *)
 Lemma diff_xcdr1_optional_origin :
@@ -434,23 +418,19 @@ Proof. dif. Qed.
 
 (* ---------------------------------------------------------------- outside the classes *)
 Lemma class0_common : forall V t v, wf_ty t = true -> stage2 t = true -> c10_class V t v = 0%N ->
-  common V t = true /\ (V = V1 -> ty_any is_f128 t = false) /\ val_nonascii_char v = false.
+  common V t = true.
 Proof.
   intros V t v Hwf Hs Hk. unfold c10_class in Hk.
-  destruct (val_nonascii_char v); [discriminate|].
   destruct (ty_any is_wstr t) eqn:Hw; [discriminate|].
   unfold stage2 in Hs. apply negb_true_iff in Hs.
   rewrite ty_any_or in Hs. apply orb_false_elim in Hs as [Hs1 Hs2].
-  unfold common. rewrite Hwf. cbn [andb].
+  unfold common. rewrite Hwf. cbn [andb]. apply negb_true_iff.
   destruct V; cbn [andb] in Hk.
   - destruct (ty_any has_opt_member t) eqn:Ho; [discriminate|].
-    destruct (ty_any is_f128 t) eqn:Hf; [discriminate|].
-    repeat split; try reflexivity. apply negb_true_iff.
     rewrite (ty_any_ext (cbad V1)
       (fun t => ((is_union t || is_mutable t) || is_wstr t) || has_opt_member t)) by reflexivity.
     now rewrite !ty_any_or, Hs1, Hs2, Hw, Ho.
-  - repeat split; try reflexivity; try discriminate. apply negb_true_iff.
-    rewrite (ty_any_ext (cbad V2)
+  - rewrite (ty_any_ext (cbad V2)
       (fun t => ((is_union t || is_mutable t) || is_wstr t) || (fun _ => false) t)) by reflexivity.
     now rewrite !ty_any_or, Hs1, Hs2, Hw, ty_any_false.
 Qed.
@@ -460,12 +440,15 @@ Theorem c10_outside_classes : forall V E t v,
   encode V E t v = Ok (spec_encode V E t v) /\ decode t (spec_encode V E t v) = Ok v.
 Proof.
   intros V E t v Ha Hwf Hs Hw Hk.
-  destruct (class0_common V t v Hwf Hs Hk) as [Hc [Hf Hn]].
+  pose proof (class0_common V t v Hwf Hs Hk) as Hc.
   split; [now apply code_eq_spec|now apply spec_decodable].
 Qed.
 
-(* XCDR1 float128: the two encoders still agree (only the READER is wrong, C09 class 2) *)
-Theorem c10_float128_bytes_agree : forall V E t v,
-  is_aggr t = true -> common V t = true -> wt t v = true -> val_nonascii_char v = false ->
-  encode V E t v = Ok (spec_encode V E t v).
-Proof. exact code_eq_spec. Qed.
+(* the inputs of the two repaired differences: the encoders agree and the value comes back *)
+Lemma regression_c10 :
+  (let t := TStruct Final [(mk 0, TPrim PChar8)] in let v := VData [(0, VP KChar8 233)] in
+   encode V2 LE t v = Ok (spec_encode V2 LE t v) /\ decode t (spec_encode V2 LE t v) = Ok v) /\
+  (let t := TStruct Final [(mk 0, TPrim PU64); (mk 1, TPrim PF128)] in
+   let v := VData [(0, VP KU64 7); (1, VP KF128 9)] in
+   encode V1 BE t v = Ok (spec_encode V1 BE t v) /\ decode t (spec_encode V1 BE t v) = Ok v).
+Proof. cbv zeta. repeat split; vm_compute; reflexivity. Qed.
